@@ -9,7 +9,7 @@ DECIDES = ('non-Bezier input (degree + 1 != number of points), a non-positive el
            'under the validation flag, in exact normal form, and the flag test dominates all computation (GD4); the accumulator rows have the '
            'coordinate count of an input point, not the point count (DK1); elevation sums, for every output row i, over exactly j = max(0, i - num) '
            '.. min(degree, i) and divides by C(degree + num, i): the index/argument structure of Eq. 5.36 (EQ536); the end rows of the reduced '
-           'polygon are the input end rows (END1); the input polygon is never mutated (PU1); in operations.degree_operations the knot vector of every Bezier segment is rebuilt from the segment\'s own knots - no literal stands for an end knot, elevation pads with copies of knot [0] in front and knot [-1] behind (KV2). [SKEL, bounded] every output row of elevation '
+           'polygon are the input end rows (END1); the input polygon is never mutated (PU1); in operations.degree_operations the knot vector of every Bezier segment is rebuilt from the segment\'s own knots - no literal stands for an end knot, elevation pads with copies of knot [0] in front and knot [-1] behind (KV2), and the degree of an object is updated before its control points and its knot vector after them (PR1). [SKEL, bounded] every output row of elevation '
            '(degree 1..8 x num 1..4) and of reduction (degree 2..9) is assigned a defined point and no row is consumed before it is computed.')
 NOT_DECIDED = 'that the assigned values equal the Bernstein-basis identities (binomial blending values), that reduction inverts elevation numerically, floating-point accuracy of binomial quotients.'
 TECHNIQUE = 'CFG dominance of validation guards, polynomial normal forms of bounds and binomial arguments, kind rule on accumulator shape; bounded index-skeleton interpretation for row coverage'
@@ -101,9 +101,46 @@ def check(m, run):
     eq536(m, run, el)
     end1(m, run, rd)
     kv2(m, run)
+    pr1(m, run)
     skel_rows(m, run)
     run.floor('GD4.validation-guard', 4, 'bezier x2, num, degree<2')
     run.floor('DK1.accumulator-shape', 2, 'elevation and reduction accumulators')
+
+
+def pr1(m, run):
+    """PR1: the definition protocol of a spline object - degree first, then control points (whose count is validated against the degree),
+    then the knot vector (validated against both): in degree_operations every block that changes the degree of an object and replaces its
+    control points does so in this order, otherwise a valid reduced/elevated polygon is validated against the old degree and rejected"""
+    fi = m.func('operations.degree_operations')
+    n = 0
+
+    def blocks(node):
+        for x in ast.walk(node):
+            for fld in ('body', 'orelse', 'finalbody'):
+                b = getattr(x, fld, None)
+                if isinstance(b, list) and b and isinstance(b[0], ast.stmt):
+                    yield b
+    for blk in blocks(fi.node):
+        deg, cps, kvs = {}, {}, {}
+        for i, st in enumerate(blk):
+            t = st.targets[0] if isinstance(st, ast.Assign) and len(st.targets) == 1 else (st.target if isinstance(st, ast.AugAssign) else None)
+            if isinstance(t, ast.Attribute) and isinstance(t.value, ast.Name):
+                if t.attr.startswith('degree'):
+                    deg.setdefault(t.value.id, i)
+                if t.attr.startswith('knotvector'):
+                    kvs.setdefault(t.value.id, i)
+            if isinstance(st, ast.Expr) and isinstance(st.value, ast.Call) and isinstance(st.value.func, ast.Attribute) and st.value.func.attr == 'set_ctrlpts' \
+                    and isinstance(st.value.func.value, ast.Name):
+                cps.setdefault(st.value.func.value.id, i)
+        for who in sorted(set(deg) & set(cps)):
+            n += 1
+            ok = deg[who] < cps[who] and (who not in kvs or cps[who] < kvs[who])
+            run.ob('PR1.degree-then-points-then-knots', '%s :: %s (line %d)' % (fi.key, who, blk[cps[who]].lineno), ok,
+                   'degree, control points, knot vector in this order' if ok else
+                   'the control points of `%s` are replaced before its degree is updated (or after its knot vector): set_ctrlpts validates the new polygon against the '
+                   'old degree, so e.g. the reduction of a single Bezier segment (degree points) is rejected' % who, site(fi, blk[cps[who]]))
+    if n < 3:
+        raise AnalysisError('degree_operations: only %d degree/control point update blocks found' % n)
 
 
 def kv2(m, run):
